@@ -291,4 +291,32 @@ def minmax (o : Interp) (xl xh : Num) (max_iter : Int) : PyRes Num := do
   let prime ← set TOL [.list o.x, .list y]
   root prime xl xh max_iter
 
+/-- `Coordinates.planetary_conjunction(alpha1_list, delta1_list, alpha2_list, delta2_list)`
+    (Coordinates.py:1963) on the coordinates in degrees (`Angle` arithmetic is float arithmetic on the
+    degree value as long as no intermediate result reaches 360 degrees; the harness keeps to that range).
+    Returns `(n_0, dd)`. -/
+def planetary_conjunction (a1 d1 a2 d2 : List Num) : PyRes (Num × Num) :=
+  if a1.length < 3 ∨ d1.length < 3 ∨ a2.length < 3 ∨ d2.length < 3 then .error .valueError
+  else if a1.length ≠ d1.length ∨ a1.length ≠ a2.length ∨ a1.length ≠ d2.length then .error .valueError
+  else
+    -- if n_entries % 2 != 1: drop the last entry of every list
+    let (a1, d1, a2, d2) :=
+      if a1.length % 2 != 1 then (a1.dropLast, d1.dropLast, a2.dropLast, d2.dropLast) else (a1, d1, a2, d2)
+    let n_entries := a1.length
+    let half_entries : Int := (n_entries / 2 : Nat)
+    -- n_list = [i - half_entries for i in range(n_entries)]
+    let n_list := (List.range n_entries).map (fun (i : Nat) => ofInt ((i : Int) - half_entries))
+    let dalpha := List.zipWith (fun a b => a - b) a1 a2
+    let ddelta := List.zipWith (fun a b => a - b) d1 d2
+    do
+      let i_alpha ← set TOL [.list n_list, .list dalpha]
+      let i_delta ← set TOL [.list n_list, .list ddelta]
+      let n_0 ← root i_alpha 0 0 1000        -- n_0 = i_alpha.root()
+      let dd ← call i_delta n_0              -- dd = i_delta(n_0)
+      pure (n_0, dd)
+
+/-- `Coordinates.planet_star_conjunction(alpha_list, delta_list, alpha_star, delta_star)`. -/
+def planet_star_conjunction (a d : List Num) (alpha_star delta_star : Num) : PyRes (Num × Num) :=
+  planetary_conjunction a d (a.map (fun _ => alpha_star)) (a.map (fun _ => delta_star))
+
 end Pymeeus.Gen@K@.Interpolation
